@@ -30,6 +30,12 @@ theorem C13_table_marks :
 /-- the marks write sits between BEGIN and COMMIT -/
 theorem C13_table_marksInTransaction : Table.ofGen.marksInTxn = true := by decide
 
+/-- **one buffer, one transaction**: the loop over the buffer of `process_batch_write` contains no BEGIN / COMMIT /
+    END / SAVEPOINT / RELEASE statement (only the ROLLBACK of its error paths) — the model's `Batch` is one
+    transaction because of this; an arm that commits in the middle (seed C13-6: the hourly `Optimize` tick handled
+    where it sits in the buffer) changes the regenerated count. -/
+theorem C13_table_oneTransaction : Discret.Gen.WriterTable.txnControlInLoop = 0 := by decide
+
 /-- `Defects.asImplemented` is what the source does after a failed marks write / a failed COMMIT -/
 theorem C13_table_defectsAsInSource :
     Discret.Gen.WriterTable.marksFailureRollsBack = !Defects.asImplemented.marksFailureLeavesTxnOpen ∧
